@@ -37,55 +37,45 @@ theorem heapMemF_laws (grow : Nat → Nat → Nat) : MemLaws (heapMemF grow) whe
     unfold Heap.read
     simp [List.length_take]
 
-/-- `q` extends `p`: unless an in-place append happened, no array that existed in `p` has
-    changed or moved, and none happened before either -/
-def HeapExt (p q : FHeap) : Prop :=
-  q.inPlace = false → p.inPlace = false ∧ ∃ ext, q.heap.arrays.toList = p.heap.arrays.toList ++ ext
+/-- `h'` extends `h`: every array of `h` is still there, unchanged, at the same index -/
+def HeapPrefix (h h' : Heap) : Prop := ∃ ext, h'.arrays.toList = h.arrays.toList ++ ext
 
-theorem heapExt_rel (grow : Nat → Nat → Nat) : MemRel (heapMemF grow) HeapExt where
-  refl := by intro m h; exact ⟨h, [], by simp⟩
-  trans := by
-    intro a b c hab hbc hc
-    obtain ⟨hb, e2, h2⟩ := hbc hc
-    obtain ⟨ha, e1, h1⟩ := hab hb
-    exact ⟨ha, e1 ++ e2, by rw [h2, h1, List.append_assoc]⟩
-  fresh := by
-    intro m b e h
-    refine ⟨h, [b ++ List.replicate e 0], ?_⟩
-    show (m.heap.arrays.push _).toList = _
-    simp
-  append := by
-    intro m a b h
-    have h' : (m.inPlace || appendsInPlace a b) = false := h
-    simp only [Bool.or_eq_false_iff] at h'
-    refine ⟨h'.1, ?_⟩
-    show ∃ ext, (heapAppend grow m.heap a b).1.arrays.toList = m.heap.arrays.toList ++ ext
-    unfold heapAppend
-    split
-    · exact ⟨[], by simp⟩
-    · rename_i hb
-      split
-      · rename_i hc
-        exfalso
-        have : appendsInPlace a b = true := by
-          unfold appendsInPlace
-          simp [hc]
-          simpa using hb
-        rw [this] at h'
-        exact absurd h'.2 (by simp)
-      · exact ⟨[m.heap.read a ++ b ++
-            List.replicate (max (grow a.cap (a.len + b.length)) (a.len + b.length) - (a.len + b.length)) 0],
-          by show (m.heap.arrays.push _).toList = _; simp⟩
+theorem HeapPrefix.refl (h : Heap) : HeapPrefix h h := ⟨[], by simp⟩
+theorem HeapPrefix.trans {a b c : Heap} (h1 : HeapPrefix a b) (h2 : HeapPrefix b c) : HeapPrefix a c := by
+  obtain ⟨e1, h1⟩ := h1
+  obtain ⟨e2, h2⟩ := h2
+  exact ⟨e1 ++ e2, by rw [h2, h1, List.append_assoc]⟩
+theorem HeapPrefix.fresh (h : Heap) (b : Bytes) (e : Nat) : HeapPrefix h (heapFresh h b e).1 :=
+  ⟨[b ++ List.replicate e 0], by show (h.arrays.push _).toList = _; simp⟩
+
+theorem HeapPrefix.size_le {h h' : Heap} (hp : HeapPrefix h h') : h.arrays.size ≤ h'.arrays.size := by
+  obtain ⟨ext, he⟩ := hp
+  have : h'.arrays.toList.length = h.arrays.toList.length + ext.length := by rw [he]; simp
+  simp at this; omega
 
 /-- arrays that existed before are read unchanged through an extension -/
-theorem HeapExt_getArr (p q : FHeap) (h : HeapExt p q) (hq : q.inPlace = false) (i : Nat)
-    (hi : i < p.heap.arrays.size) : q.heap.getArr i = p.heap.getArr i := by
-  obtain ⟨_, ext, he⟩ := h hq
+theorem HeapPrefix.getArr {h h' : Heap} (hp : HeapPrefix h h') (i : Nat) (hi : i < h.arrays.size) :
+    h'.getArr i = h.getArr i := by
+  obtain ⟨ext, he⟩ := hp
   unfold Heap.getArr
-  have e1 : q.heap.arrays.getD i [] = (q.heap.arrays.toList[i]?).getD [] := by
+  have e1 : h'.arrays.getD i [] = (h'.arrays.toList[i]?).getD [] := by
     rw [Array.getD_eq_getD_getElem?, Array.getElem?_toList]
-  have e2 : p.heap.arrays.getD i [] = (p.heap.arrays.toList[i]?).getD [] := by
+  have e2 : h.arrays.getD i [] = (h.arrays.toList[i]?).getD [] := by
     rw [Array.getD_eq_getD_getElem?, Array.getElem?_toList]
   rw [e1, e2, he, List.getElem?_append_left (by simpa using hi)]
+
+/-- the heap instance of the VM only ever extends the heap -/
+theorem heapPrefix_rel (grow : Nat → Nat → Nat) : MemRel (heapMem grow) HeapPrefix where
+  refl := HeapPrefix.refl
+  trans := fun _ _ _ h1 h2 => h1.trans h2
+  fresh := fun m b e => HeapPrefix.fresh m b e
+
+/-- … and on the flagged instance the in-place flag never changes -/
+def FlagRel (p q : FHeap) : Prop := q.inPlace = p.inPlace ∧ HeapPrefix p.heap q.heap
+
+theorem flagRel_rel (grow : Nat → Nat → Nat) : MemRel (heapMemF grow) FlagRel where
+  refl := fun m => ⟨rfl, HeapPrefix.refl _⟩
+  trans := fun _ _ _ h1 h2 => ⟨h2.1.trans h1.1, h1.2.trans h2.2⟩
+  fresh := fun m b e => ⟨rfl, HeapPrefix.fresh m.heap b e⟩
 
 end BytomModel.VM
